@@ -458,6 +458,204 @@ async fn run_inner(sc: &TimeScenario) -> Outcome {
 }
 
 // ---------------------------------------------------------------------
+// C03 (ii): abandonment by an enclosing deadline
+
+#[derive(Clone, Debug)]
+pub struct EnclosingScenario {
+    pub state: PState,
+    pub hooks: bool,
+    pub max_events: usize,
+}
+
+/// `tokio::time::timeout(10ms, pool.get())` on a paused clock: the explorer
+/// orders clock advances, gate completions and the holder's return; when the
+/// outer deadline fires the get() future is dropped by tokio at whichever
+/// await point it is suspended in. Afterwards: exact status(), capacity probe,
+/// destructor / detach ledger (all tagged C03).
+pub fn run_enclosing(sc: &EnclosingScenario) -> Outcome {
+    sched::begin();
+    let rt = tokio::runtime::Builder::new_current_thread().enable_time().start_paused(true).build().expect("tokio runtime");
+    let out = rt.block_on(run_enclosing_inner(sc));
+    drop(rt);
+    sched::end();
+    out
+}
+
+async fn run_enclosing_inner(sc: &EnclosingScenario) -> Outcome {
+    let mut cfg = PoolCfg::simple(1);
+    let menu = vec![Out::PendOk, Out::Ok, Out::Never, Out::PendErr];
+    cfg.create_menu = menu.clone();
+    cfg.recycle_menu = menu.clone();
+    if sc.hooks {
+        let h = HookCfg { asynchronous: true, menu: menu.clone() };
+        cfg.pre_recycle = vec![h.clone()];
+        cfg.post_recycle = vec![h.clone()];
+        cfg.post_create = vec![h];
+    }
+    cfg.auto_gates = false;
+    init_world(cfg, &["C03"]);
+    let pool = build_pool_with(Timeouts::new(), Some(Runtime::Tokio1)).expect("build");
+    w(|w| w.handles = 1);
+    w(|w| {
+        w.forced_ok = true;
+        w.seq_actor = Some(PROBE);
+    });
+    let nb = Timeouts { wait: Some(Duration::ZERO), create: None, recycle: None };
+    let mut holder = false;
+    if matches!(sc.state, PState::Idle | PState::Exhausted) {
+        let gi = w(|w| w.begin_get(PROBE, true));
+        let p = pool.clone();
+        let mut t = Task::new(async move { p.timeout_get(&nb).await });
+        match t.poll() {
+            Some(r) => finish_get(PROBE, gi, r),
+            None => panic!("setup get pending"),
+        }
+        if sc.state == PState::Idle {
+            while op_release(PROBE) {}
+        } else {
+            holder = true;
+        }
+    }
+    w(|w| {
+        w.forced_ok = false;
+        w.seq_actor = None;
+    });
+    let who = 1usize;
+    let gi = w(|w| w.begin_get(who, false));
+    let p = pool.clone();
+    let mut task: Task<Option<Result<Object<Mgr>, PoolError<MErr>>>> = Task::new(async move { tokio::time::timeout(Duration::from_millis(T_MS), p.get()).await.ok() });
+    let mut now = 0u64;
+    let mut first = true;
+    let mut events = 0usize;
+    let mut outcome: Option<String> = None;
+    loop {
+        if task.woken() || first {
+            first = false;
+            w(|w| w.seq_actor = Some(who));
+            let r = catch_unwind(AssertUnwindSafe(|| task.poll()));
+            w(|w| w.seq_actor = None);
+            match r {
+                Err(p) => {
+                    let m = explorer::panic_msg(&p);
+                    w(|w| w.violate(&["C03"], "panic", format!("get() under an enclosing deadline panicked: {}", m)));
+                    task.cancel();
+                    w(|w| w.end_op(who));
+                    outcome = Some("panic".into());
+                }
+                Ok(Some(None)) => {
+                    // the enclosing deadline fired: tokio dropped the get() future
+                    trace!("t={}ms enclosing deadline fired; get() abandoned", now);
+                    if now < T_MS {
+                        w(|w| w.violate(&["MACHINERY"], "clock", "enclosing deadline fired early".into()));
+                    }
+                    w(|w| {
+                        w.get_cancelled(gi);
+                        w.end_op(who);
+                    });
+                    outcome = Some("abandoned".into());
+                }
+                Ok(Some(Some(r))) => {
+                    outcome = Some(if r.is_ok() { "object".into() } else { "error".into() });
+                    w(|w| w.seq_actor = Some(who));
+                    finish_get(who, gi, r);
+                    w(|w| w.seq_actor = None);
+                }
+                Ok(None) => {}
+            }
+        }
+        if outcome.is_some() || events >= sc.max_events || !w(|w| w.viol.is_empty()) {
+            break;
+        }
+        let mut opts: Vec<u8> = vec![0, 1];
+        if holder {
+            opts.push(2);
+        }
+        let gates: Vec<usize> = sched::pending_gates().into_iter().filter(|(_, l)| l != "never").map(|(g, _)| g).collect();
+        for i in 0..gates.len() {
+            opts.push(3 + i as u8);
+        }
+        let k = choose_free(opts.len());
+        explorer::count_step();
+        events += 1;
+        match opts[k] {
+            0 | 1 => {
+                let d = if opts[k] == 0 { STEP_SMALL } else { STEP_BIG };
+                now += d;
+                trace!("advance to t={}ms", now);
+                tokio::time::advance(Duration::from_millis(d)).await;
+            }
+            2 => {
+                trace!("t={}ms holder returns its object", now);
+                w(|w| w.seq_actor = Some(PROBE));
+                while op_release(PROBE) {}
+                w(|w| w.seq_actor = None);
+                holder = false;
+            }
+            g => {
+                let gid = gates[(g - 3) as usize];
+                trace!("t={}ms gate {} completes", now, gid);
+                sched::fire_gate(gid);
+            }
+        }
+        let mut h = std::collections::hash_map::DefaultHasher::new();
+        (now, task.woken(), holder, pool.verif_snapshot(), w(|w| w.env_log.len())).hash(&mut h);
+        note_state(h.finish());
+    }
+    if !task.done() {
+        w(|w| w.seq_actor = Some(who));
+        task.cancel();
+        w(|w| {
+            w.seq_actor = None;
+            w.get_cancelled(gi);
+            w.end_op(who);
+        });
+    }
+    // the pool must be as if the call had never been made
+    if w(|w| w.viol.is_empty()) {
+        let st = pool.status();
+        w(|w| {
+            crate::conc::check_plausible(w, &st, "after the enclosing deadline");
+            crate::conc::check_exact(w, &st, 0, "after the abandoned call");
+        });
+    }
+    if w(|w| w.viol.is_empty()) {
+        let whos: Vec<usize> = w(|w| w.hands.keys().copied().collect());
+        for wh in whos {
+            w(|w| w.seq_actor = Some(wh));
+            while op_release(wh) {}
+            w(|w| w.seq_actor = None);
+        }
+        probe(&pool);
+    }
+    let obs = {
+        let mut h = std::collections::hash_map::DefaultHasher::new();
+        (sc.state, sc.hooks, &outcome, now).hash(&mut h);
+        w(|w| {
+            for o in &w.objs {
+                (o.alive, o.detach, o.handouts).hash(&mut h);
+            }
+        });
+        h.finish()
+    };
+    if w(|w| w.viol.is_empty()) {
+        crate::conc::drop_handle(0, pool);
+        w(|w| w.final_ledger(true));
+    } else {
+        let saved = w(|w| w.viol.clone());
+        crate::conc::drop_handle(0, pool);
+        w(|w| w.viol = saved);
+    }
+    let mut world = drop_world().unwrap();
+    let keep = std::mem::take(&mut world.keep);
+    let hands = std::mem::take(&mut world.hands);
+    let violations: Vec<Violation> = std::mem::take(&mut world.viol);
+    drop(world);
+    drop(hands);
+    drop(keep);
+    Outcome { obs, violations }
+}
+
+// ---------------------------------------------------------------------
 // unmanaged pool: single timeout
 
 use deadpool::unmanaged;
